@@ -224,6 +224,27 @@ def C13_3(ctx, facts):
     for c in af:
         ok, w = f.guarded(c.bb, is_connect(True))
         ctx.check(ok, "check_http1_request|connect-authority-form", "authority-form is used exactly for CONNECT", "authority_form reachable for a non-CONNECT request", c.where(), f.path_desc(w))
+    # CONNECT ends in authority-form: origin_form may follow authority_form on the CONNECT path only behind a scheme test that
+    # reads the URI *after* authority_form rewrote it (which is why that test can never succeed and the target stays
+    # `host:port`); a scheme remembered from before the rewrite would turn the target of `CONNECT https://..` into `/`
+    afb = {c.bb for c in af}
+
+    def late_scheme_test(lab):
+        if lab.kind != "bool" or lab.value is None or lab.cond.kind != "call":
+            return False
+        s_ = lab.cond.site
+        rr_ = set()
+        for a_ in s_.args:
+            rr_ |= f.roots(a_)
+        reads = [r.site for r in rr_ if r.kind == "call" and r.site.is_("http::Uri::scheme", "http::uri::Uri::scheme", "http::Uri::scheme_str", "http::uri::Uri::scheme_str")]
+        return bool(reads) and all(f.must_pass(0, [x.bb], afb)[0] for x in reads)
+
+    for c in of:
+        if not f.guarded(c.bb, is_connect(True))[0]:
+            continue
+        ok, w = f.guarded(c.bb, late_scheme_test)
+        ctx.check(ok, "check_http1_request|connect-stays-authority-form", "on the CONNECT path origin_form is reachable only behind a scheme test of the already rewritten (authority-form) URI",
+                  "a CONNECT request can be rewritten to origin-form after authority-form (scheme read before the rewrite, or no test at all): the target collapses to `/`", c.where(), f.path_desc(w))
     non_connect_origin = [c for c in of if f.guarded(c.bb, is_connect(False))[0]]
     ctx.check(len(non_connect_origin) >= 1, "check_http1_request|origin-form-otherwise", "non-CONNECT requests get origin-form", "no origin_form on the non-CONNECT path")
     # every non-CONNECT request with an absolute URI reaches origin_form: from the CONNECT==false edge, paths to return pass origin_form or absolute_form (relative URI: nothing to strip)
